@@ -1,6 +1,7 @@
 package main
 
 import (
+	"fmt"
 	"go/token"
 	"go/types"
 
@@ -113,4 +114,242 @@ func checkWriteArgs(w *World, r *Report) {
 		r.Fail("writeargs", r.MkKey("writeargs", "header.Write", "argument of Write"), w.Pos(fn.Pos()), "fewer than three writes to the destination found (header, table body, padding)", nil)
 	}
 	r.Floor("writeargs", 3)
+}
+
+// checkReadAtNonEmpty: io.ReaderAt implementations may answer a read of zero
+// bytes at the end of the input with io.EOF (bytes.Reader does). A table of
+// length 0 that the writer lays out last sits exactly there, so a ReadAt into
+// a buffer that can be empty, whose error is passed on unfiltered, turns
+// "reading back returns exactly the tables written (any lengths including 0)"
+// into an error. Every ReadAt in package header therefore reads into a buffer
+// of constant positive length, or its error is compared with io.EOF.
+func checkReadAtNonEmpty(w *World, r *Report) {
+	r.Rule("readatnonempty: every call of ReadAt on an io.ReaderAt in package header reads into a buffer whose length is a positive constant (a constant-bounds slice of an array or a constant-length make), or the function compares an error with io.EOF: an empty read at the very end of the input may report io.EOF, and a zero-length table lies there")
+	n := 0
+	for _, fn := range w.LibFuncs() {
+		if fnPkgPath(fn) != modPath+"/header" {
+			continue
+		}
+		usesEOF := false
+		for _, b := range fn.Blocks {
+			for _, in := range b.Instrs {
+				for _, op := range in.Operands(nil) {
+					if g, ok := (*op).(*ssa.Global); ok && g.Pkg != nil && g.Pkg.Pkg.Path() == "io" && (g.Name() == "EOF" || g.Name() == "ErrUnexpectedEOF") {
+						usesEOF = true
+					}
+				}
+			}
+		}
+		for _, b := range fn.Blocks {
+			for _, in := range b.Instrs {
+				call, ok := in.(*ssa.Call)
+				if !ok {
+					continue
+				}
+				c := call.Common()
+				if !c.IsInvoke() || c.Method.Name() != "ReadAt" || len(c.Args) != 2 {
+					continue
+				}
+				n++
+				key := r.MkKey("readatnonempty", fnName(fn), "ReadAt")
+				if k, ok := constPositiveLen(c.Args[0]); ok {
+					r.OK("readatnonempty", key, w.Pos(call.Pos()), fmt.Sprintf("reads %d byte(s)", k))
+				} else if usesEOF {
+					r.OK("readatnonempty", key, w.Pos(call.Pos()), "the function tells io.EOF from other errors")
+				} else {
+					r.Fail("readatnonempty", key, w.Pos(call.Pos()), "the buffer handed to ReadAt can be empty and the error is not compared with io.EOF: for a zero-length table at the very end of the file a conforming reader (bytes.Reader) answers io.EOF, and the table that was written does not come back", nil)
+				}
+			}
+		}
+	}
+	if n == 0 {
+		r.Fail("readatnonempty", r.MkKey("readatnonempty", "header", "ReadAt calls"), "-", "no ReadAt call found in package header", nil)
+	}
+	r.Floor("readatnonempty", 3)
+}
+
+// constPositiveLen: the slice value has a constant positive length.
+func constPositiveLen(v ssa.Value) (int64, bool) {
+	switch x := v.(type) {
+	case *ssa.Slice:
+		lo := int64(0)
+		if x.Low != nil {
+			c, ok := x.Low.(*ssa.Const)
+			if !ok {
+				return 0, false
+			}
+			lo = c.Int64()
+		}
+		if x.High == nil {
+			// whole array
+			if p, ok := x.X.Type().Underlying().(*types.Pointer); ok {
+				if a, ok := p.Elem().Underlying().(*types.Array); ok && a.Len()-lo > 0 {
+					return a.Len() - lo, true
+				}
+			}
+			return 0, false
+		}
+		c, ok := x.High.(*ssa.Const)
+		if !ok {
+			return 0, false
+		}
+		if c.Int64()-lo > 0 {
+			return c.Int64() - lo, true
+		}
+	case *ssa.MakeSlice:
+		if c, ok := x.Len.(*ssa.Const); ok && c.Int64() > 0 {
+			return c.Int64(), true
+		}
+	}
+	return 0, false
+}
+
+// checkTableCountRange: header.Write refuses table counts it cannot
+// describe; header.Read refuses table counts it considers implausible. Every
+// count the writer accepts must be a count the reader accepts, or a container
+// the writer produced cannot be read back.
+func checkTableCountRange(w *World, r *Report) {
+	r.Rule("tablecount: the largest table count header.Write accepts (from the comparison of the count it stores into NumTables with a constant on the way to its error return) is not larger than the largest table count header.Read accepts (from the comparison of the count it reads from bytes 4,5 with a constant on the way to its error return)")
+	wf, rf := w.Func("header.Write"), w.Func("header.Read")
+	if wf == nil || rf == nil {
+		r.Fatal("header.Write / header.Read do not resolve")
+		return
+	}
+	key := r.MkKey("tablecount", "header.Write/Read", "accepted table counts")
+	// writer: the value converted and stored into the NumTables field
+	var wcount ssa.Value
+	for _, b := range wf.Blocks {
+		for _, in := range b.Instrs {
+			if st, ok := in.(*ssa.Store); ok && fieldName(st.Addr) == "NumTables" {
+				v := st.Val
+				if cv, ok := v.(*ssa.Convert); ok {
+					v = cv.X
+				}
+				wcount = v
+			}
+		}
+	}
+	// reader: the bound of the directory loop (a value built from two bytes by shift and or)
+	var rcount ssa.Value
+	for _, b := range rf.Blocks {
+		for _, in := range b.Instrs {
+			bo, ok := in.(*ssa.BinOp)
+			if !ok || bo.Op != token.OR {
+				continue
+			}
+			if sh, ok := bo.X.(*ssa.BinOp); ok && sh.Op == token.SHL && isIntegerType(bo.Type()) && typeBits(bo.Type()) == 64 {
+				if c, ok := sh.Y.(*ssa.Const); ok && c.Int64() == 8 && rcount == nil {
+					rcount = bo
+				}
+			}
+		}
+	}
+	if wcount == nil || rcount == nil {
+		r.Fail("tablecount", key, w.Pos(wf.Pos()), "the table count of the writer (value stored into NumTables) or of the reader (16-bit value from the file header) was not found", nil)
+		return
+	}
+	wmax, okw := rejectAbove(wf, wcount)
+	rmax, okr := rejectAbove(rf, rcount)
+	switch {
+	case !okw:
+		r.Fail("tablecount", key, w.Pos(wf.Pos()), "header.Write does not compare the table count with a constant before it stores it into the 16-bit NumTables field", nil)
+	case !okr:
+		r.OK("tablecount", key, w.Pos(rf.Pos()), fmt.Sprintf("the writer accepts up to %d tables, the reader any count", wmax))
+	case wmax > rmax:
+		r.Fail("tablecount", key, w.Pos(rf.Pos()), fmt.Sprintf("header.Write accepts up to %d tables but header.Read rejects more than %d: a container with a table count in between is written without complaint and cannot be read back", wmax, rmax), nil)
+	default:
+		r.OK("tablecount", key, w.Pos(rf.Pos()), fmt.Sprintf("the writer accepts up to %d tables, the reader up to %d", wmax, rmax))
+	}
+}
+
+// rejectAbove: the largest value of v for which no `v > K` / `v >= K` test
+// (whose true branch is taken to an error return) fires.
+func rejectAbove(fn *ssa.Function, v ssa.Value) (int64, bool) {
+	best, found := int64(0), false
+	for _, b := range fn.Blocks {
+		if len(b.Instrs) == 0 {
+			continue
+		}
+		ifi, ok := b.Instrs[len(b.Instrs)-1].(*ssa.If)
+		if !ok {
+			continue
+		}
+		bo, ok := ifi.Cond.(*ssa.BinOp)
+		if !ok || bo.X != v {
+			continue
+		}
+		c, ok := bo.Y.(*ssa.Const)
+		if !ok || c.Value == nil {
+			continue
+		}
+		var max int64
+		switch bo.Op {
+		case token.GTR:
+			max = c.Int64()
+		case token.GEQ:
+			max = c.Int64() - 1
+		default:
+			continue
+		}
+		if !found || max < best {
+			best, found = max, true
+		}
+	}
+	return best, found
+}
+
+// checkScalerSet: header.Read accepts three scaler types; header.Write writes
+// whatever scaler type it is given. A container written with another scaler
+// type cannot be read back.
+func checkScalerSet(w *World, r *Report) {
+	r.Rule("scalerset: the scaler type header.Write stores into the offset table is either tested against the constants header.Read accepts (the 32-bit value from bytes 0..3 compared with constants on the way to its error return), or the reader accepts every value")
+	wf, rf := w.Func("header.Write"), w.Func("header.Read")
+	if wf == nil || rf == nil {
+		r.Fatal("header.Write / header.Read do not resolve")
+		return
+	}
+	key := r.MkKey("scalerset", "header.Write/Read", "accepted scaler types")
+	// reader: != comparisons of one value with constants
+	accepted := map[int64]bool{}
+	for _, b := range rf.Blocks {
+		for _, in := range b.Instrs {
+			bo, ok := in.(*ssa.BinOp)
+			if !ok || (bo.Op != token.NEQ && bo.Op != token.EQL) || typeBits(bo.X.Type()) != 32 {
+				continue
+			}
+			if c, ok := bo.Y.(*ssa.Const); ok && c.Value != nil {
+				accepted[c.Int64()] = true
+			}
+		}
+	}
+	// writer: the value stored into ScalerType
+	var stored ssa.Value
+	for _, b := range wf.Blocks {
+		for _, in := range b.Instrs {
+			if st, ok := in.(*ssa.Store); ok && fieldName(st.Addr) == "ScalerType" {
+				stored = st.Val
+			}
+		}
+	}
+	if stored == nil {
+		r.Fail("scalerset", key, w.Pos(wf.Pos()), "no store into the ScalerType field found in header.Write", nil)
+		return
+	}
+	if len(accepted) == 0 {
+		r.OK("scalerset", key, w.Pos(rf.Pos()), "the reader does not restrict the scaler type")
+		return
+	}
+	tested := false
+	if refs := stored.Referrers(); refs != nil {
+		for _, ref := range *refs {
+			if bo, ok := ref.(*ssa.BinOp); ok && (bo.Op == token.EQL || bo.Op == token.NEQ) {
+				tested = true
+			}
+		}
+	}
+	if tested {
+		r.OK("scalerset", key, w.Pos(wf.Pos()), "the writer tests the scaler type before storing it")
+	} else {
+		r.Fail("scalerset", key, w.Pos(wf.Pos()), fmt.Sprintf("header.Write stores any scaler type it is given, header.Read accepts %d values only: a container written with another scaler type is reported as unsupported when it is read back", len(accepted)), nil)
+	}
 }
